@@ -2,6 +2,7 @@
 from __future__ import annotations
 
 import hashlib
+import os
 
 from .. import common, suitio, suitcases, cbortree as ct
 from ..common import Result, stage_a, finish, Findings
@@ -161,7 +162,64 @@ def work(args):
         desc["SUIT_Envelope_Tagged"]["suit-manifest"]["suit-validate"] = [{"suit-directive-override-parameters": {
             "suit-parameter-image-digest": {"suit-digest-algorithm-id": alg, "suit-digest-bytes": {"file": name2}},
             "suit-parameter-image-size": {"file": name2}}}]
-    impl = suitcases.run_impl_create(desc, files)
+    if kind == "suffix":
+        # files whose names suggest a format (Intel HEX, JSON, YAML, base64, gzip) and whose content *is* of that format: a referenced file is bytes,
+        # whatever it is called - the member is the file's content, digest and size describe the file
+        import random
+        import io
+        import intelhex
+        rng = random.Random(f"{seed}:{index}:suffix")
+        raw = bytes(rng.randrange(256) for _ in range(rng.choice([16, 300, 1000])))
+        ih = intelhex.IntelHex()
+        ih.frombytes(raw, offset=rng.choice([0, 0x1000, 0x0E0A0000]))
+        sio = io.StringIO()
+        ih.write_hex_file(sio)
+        import base64
+        import gzip
+        candidates = {"app.hex": sio.getvalue().encode(), "APP_CORE.HEX": sio.getvalue().encode(), "radio.ihex": sio.getvalue().encode(), "cfg.json": b'{"a": [1, 2, 3]}\n',
+                      "notes.yaml": b"a: 1\nb: [x, y]\n", "blob.b64": base64.b64encode(raw) + b"\n", "fw.bin.gz": gzip.compress(raw, mtime=0), "image.txt": raw.hex().encode()}
+        name = rng.choice(sorted(candidates))
+        files[name] = candidates[name]
+        alg = rng.choice(["cose-alg-sha-256", "cose-alg-sha-384", "cose-alg-sha-512", "cose-alg-shake128", "cose-alg-shake256"])
+        desc["SUIT_Envelope_Tagged"].setdefault("suit-integrated-payloads", {})["#" + name] = name
+        desc["SUIT_Envelope_Tagged"]["suit-manifest"]["suit-validate"] = [{"suit-directive-override-parameters": {
+            "suit-parameter-image-digest": {"suit-digest-algorithm-id": alg, "suit-digest-bytes": {"file": name}}, "suit-parameter-image-size": {"file": name}}}]
+    if kind == "symlink":
+        # a referenced path is resolved the way the operating system resolves it: ".." after a directory that is a symbolic link leads to the parent of the
+        # link's target, not to the parent of the link's name; at the lexically shortened place lies another file
+        import random
+        import shutil
+        rng = random.Random(f"{seed}:{index}:symlink")
+        real, lexical = bytes([0xFF]) + rng.randbytes(rng.choice([20, 300])), bytes([0xFF]) + rng.randbytes(rng.choice([33, 64]))
+        ref_name = "current/../images/app.bin"
+        alg = rng.choice(["cose-alg-sha-256", "cose-alg-sha-512", "cose-alg-shake128"])
+        desc["SUIT_Envelope_Tagged"].setdefault("suit-integrated-payloads", {})["#linked"] = ref_name
+        desc["SUIT_Envelope_Tagged"]["suit-manifest"]["suit-validate"] = [{"suit-directive-override-parameters": {
+            "suit-parameter-image-digest": {"suit-digest-algorithm-id": alg, "suit-digest-bytes": {"file": ref_name}}, "suit-parameter-image-size": {"file": ref_name}}}]
+        d = suitcases.scratch_dir()
+        made = [os.path.join(d, x) for x in ("store", "images", "current")]
+        for x in made:
+            if os.path.islink(x):
+                os.unlink(x)
+            else:
+                shutil.rmtree(x, ignore_errors=True)
+        os.makedirs(os.path.join(d, "store", "build_7", "out"))
+        os.makedirs(os.path.join(d, "store", "build_7", "images"))
+        os.makedirs(os.path.join(d, "images"))
+        open(os.path.join(d, "store", "build_7", "images", "app.bin"), "wb").write(real)
+        open(os.path.join(d, "images", "app.bin"), "wb").write(lexical)
+        os.symlink(os.path.join("store", "build_7", "out"), os.path.join(d, "current"))
+        suitcases.write_files(files, d)
+        try:
+            impl = suitio.impl_create(desc, cwd=d)
+        finally:
+            suitcases.clear_files(files, d)
+            os.unlink(os.path.join(d, "current"))
+            shutil.rmtree(os.path.join(d, "store"), ignore_errors=True)
+            shutil.rmtree(os.path.join(d, "images"), ignore_errors=True)
+        files[ref_name] = real
+    else:
+        impl = suitcases.run_impl_create(desc, files)
     model = suitio.model_create(drv, desc, files)
     if kind == "decoy" and "ok" in impl:
         # through the command line, the description kept in another directory that holds same-named files with other contents:
@@ -192,6 +250,8 @@ def run(tier: str, seed: int) -> int:
     jobs += [(seed, 9 * 10 ** 6 + i, "bigfile") for i in range(14 if tier == "quick" else 120)]
     jobs += [(seed, 10 * 10 ** 6 + i, "decoy") for i in range(40 if tier == "quick" else 400)]
     jobs += [(seed, 7 * 10 ** 6 + i, "big") for i in range(6 if tier == "quick" else 60)]
+    jobs += [(seed, 12 * 10 ** 6 + i, "suffix") for i in range(24 if tier == "quick" else 300)]
+    jobs += [(seed, 13 * 10 ** 6 + i, "symlink") for i in range(8 if tier == "quick" else 80)]
     known = {e["id"] for e in Findings().known(PROP)}
     outs = common.pmap(work, jobs, chunk=8)
     for job, o in zip(jobs, outs):
